@@ -661,7 +661,7 @@ def program_search(ctx, parts):
     import random
     if not shutil.which("gcc"):
         raise common.BrokenCheck("gcc not found (needed as the oracle of the C04 failing-input search)")
-    nprog = 40 if ctx.thorough else 3
+    nprog = 30 if ctx.thorough else 3
     base = ctx.rng.randrange(1 << 30)
     programs = [(name, src) for name, src in CORPUS.items()]
     for k in range(nprog):
